@@ -330,6 +330,9 @@ class ExprMixin:
         if sa and sb and o in ("Eq", "NotEq"):
             r = str_term(a) == str_term(b)
             return r if o == "Eq" else z3.Not(r)
+        if isinstance(a, Sym) and isinstance(b, Sym) and a.tag == b.tag == "attval" and o in ("Eq", "NotEq"):
+            r = self.attval_eq(a, b)
+            return r if o == "Eq" else z3.Not(r)
         if isinstance(a, Sym) and isinstance(b, Sym) and a.tag == b.tag and o in ("Eq", "NotEq"):
             if a.tag in ("fmtstr", "chunk"):
                 return self.dunder_eq(o, a, b, st)
@@ -700,9 +703,60 @@ class ExprMixin:
             return Sym("str", z3.SubSeq(v.t, pos, 1), origin=("slice", v.t, pos, pos + 1))
         if isinstance(v, Sym) and v.tag == "fmtstr":
             return self.call_method_contract(v, "__getitem__", [idx], {}, st)
-        if isinstance(v, Sym) and v.tag == "atts" and isinstance(idx, str):
+        if isinstance(v, Sym) and v.tag == "atts":
             return self.atts_getitem(v, idx, st)
+        from .values import SymAtts
+        if isinstance(v, Ref) and isinstance(st.deref(v), SymAtts):
+            return self.atts_getitem(Sym("atts", st.deref(v).t), idx, st)
         raise Unsupported(f"subscript of {v!r} with {idx!r}")
+
+    def att_key_index(self, idx):
+        """index term (into ATT_KEYS) of an attribute key: a concrete name or a symbolic key"""
+        if isinstance(idx, str):
+            if idx not in T.ATT_KEYS:
+                return None
+            return z3.IntVal(T.ATT_KEYS.index(idx))
+        if isinstance(idx, Sym) and idx.tag == "attkey":
+            return idx.t
+        raise Unsupported(f"attribute key {idx!r}")
+
+    def atts_getitem(self, v, idx, st, default=KeyError):
+        """atts[key] / atts.get(key, default): the stored value as Sym 'attval' (an Int of the Atts encoding, 0 = absent)"""
+        k = self.att_key_index(idx)
+        if k is None:
+            if default is KeyError:
+                raise PyRaise("KeyError")
+            return default
+        val = T.att_field_at(v.t, k)
+        known_present = isinstance(idx, Sym) and idx.origin is not None and idx.origin[0] == "keyof" and idx.origin[1].eq(v.t)
+        if default is KeyError:
+            if not known_present and not self.decide(val != 0, st):
+                raise PyRaise("KeyError")
+            return Sym("attval", val)
+        if known_present:
+            return Sym("attval", val)
+        return Sym("attval", val, origin=("default", default))
+
+    def attval_eq(self, a, b):
+        """== of two attribute values; a value read with .get(key, default) is the default when absent (term 0)"""
+        def parts(x):
+            if isinstance(x, Sym) and x.tag == "attval":
+                return x.t, (x.origin[1] if x.origin and x.origin[0] == "default" else None), bool(x.origin and x.origin[0] == "default")
+            raise Unsupported(f"comparison of an attribute value with {x!r}")
+        ta, da, ha = parts(a)
+        tb, db, hb = parts(b)
+        for d in (da, db):
+            if d is not None and not isinstance(d, str):
+                raise Unsupported("attribute default that could equal an attribute value")
+        if ha and hb:
+            raise Unsupported("comparison of two defaulted attribute reads")
+        # a stored value is never 0; a str default never equals a stored value (ints / booleans)
+        conj = [ta == tb]
+        if ha:
+            conj.append(ta != 0)
+        if hb:
+            conj.append(tb != 0)
+        return z3.And(*conj) if len(conj) > 1 else conj[0]
 
     def table_lookup(self, table, key, st):
         """constant table indexed by a symbolic key: fork per feasible key (finite)."""
@@ -728,6 +782,22 @@ class ExprMixin:
         raise PyRaise("KeyError")
 
     def set_item(self, obj, slice_node, v, st):
+        from .values import SymAtts
+        if isinstance(obj, Ref) and isinstance(st.deref(obj), (DictV, SymAtts)):
+            k0 = self.ev(slice_node, st)
+            if isinstance(k0, Sym) and k0.tag == "attkey":
+                o = st.deref(obj)
+                if isinstance(o, DictV):
+                    if o.items:
+                        raise Unsupported("symbolic attribute key stored into a non-empty concrete dict")
+                    o = SymAtts(T.NOATTS)
+                    st.heap[obj.oid] = o
+                if not (isinstance(v, Sym) and v.tag == "attval" and not (v.origin and v.origin[0] == "default")):
+                    raise Unsupported(f"value {v!r} stored under a symbolic attribute key")
+                o.t = T.att_store(o.t, k0.t, v.t)
+                return
+            if isinstance(st.deref(obj), SymAtts):
+                raise Unsupported("concrete key stored into a symbolic attribute dict")
         if isinstance(obj, Ref):
             o = st.deref(obj)
             if isinstance(o, DictV):
